@@ -90,6 +90,7 @@ impl LabProp for P16 {
         let s = Sampler::new(g);
         let mut out = vec![];
         let has_assert = g.any_regex(&|r| matches!(r, Regex::Assert(_)));
+        let has_pred = g.any_regex(&|r| matches!(r, Regex::Pred(Some(_))));
         for entry in 0..=g.parts.len() {
             let rule = if entry == 0 { g.start } else { g.parts[entry - 1] };
             let n = t.pick(26, 60) / (1 + entry.min(1));
@@ -126,6 +127,30 @@ impl LabProp for P16 {
                     r.base = Some(base.clone());
                     out.push(r);
                 }
+                // tokens skipped through the predicate_skip hook (the harness skips the first declared
+                // token when smode = 1) are skipped tokens too: in front of the first token, in any
+                // gap, behind the last one
+                if i % 3 == 0 && !g.skip.contains(&0) && !has_pred {
+                    let base0: Vec<usize> = base.iter().copied().filter(|t| *t != 0).collect();
+                    let mut toks = vec![];
+                    for k in 0..=base0.len() {
+                        if d.chance(if k == 0 { 3 } else { 1 }, 4) {
+                            for _ in 0..1 + d.below(2) {
+                                toks.push(0);
+                            }
+                        }
+                        if k < base0.len() {
+                            toks.push(base0[k]);
+                        }
+                    }
+                    let mut r = Req::new(gi, toks);
+                    r.entry = entry;
+                    r.seed = seed;
+                    r.enc = (i % 2) as u8;
+                    r.smode = 1;
+                    r.base = Some(base0);
+                    out.push(r);
+                }
             }
         }
         out
@@ -140,8 +165,21 @@ impl LabProp for P16 {
             ev.exclude("parse did not return (C03 matter)");
             return Ok(());
         }
-        let n = check_peeks(g, req, rep)?;
-        ev.label_n("predicate_calls_checked", n as u64);
+        // dynamically skipped tokens: judge with the first token counted among the skipped ones
+        let g_dyn;
+        let g = if req.smode == 1 {
+            let mut x = g.clone();
+            x.skip.push(0);
+            g_dyn = x;
+            ev.label("predicate_skip_variants");
+            &g_dyn
+        } else {
+            g
+        };
+        if req.smode == 0 {
+            let n = check_peeks(g, req, rep)?;
+            ev.label_n("predicate_calls_checked", n as u64);
+        }
         let (Some(t1), Some(t0)) = (&rep.tree, &brep.tree) else { return Ok(()) };
         let s1 = interp::strip_reply_tree(g, t1);
         let s0 = interp::strip_reply_tree(g, t0);
